@@ -7,5 +7,11 @@ META = {"explanation": "bounded functional: one concrete (small) shape per group
         "assumptions": ['only the naive reference routines in the quick tier; the Russian/recursive routines are thorough-tier attempts (measured intractable beyond 2x3)']}
 
 
+def _compress(tier):
+    # the compression step of the block-recursive PLE under its own stage contract (defined with the column operations, checks/C13.py)
+    from checks import C13
+    return [g for g in C13.compress_groups(tier) if not g.canary]
+
+
 def groups(tier, seed):
-    return with_canaries(alg.c03(tier)) + with_canaries([g for g in layer_s.front_groups(["C03", "C11"]) if g.function in ("mzd_pluq", "mzd_ple")])
+    return with_canaries(alg.c03(tier)) + with_canaries([g for g in layer_s.front_groups(["C03", "C11"]) if g.function in ("mzd_pluq", "mzd_ple")]) + _compress(tier)
